@@ -226,6 +226,24 @@ TRUNC = [bytes([3, 0x20]) + b'ab', bytes([4, 0xff, 0xff]), bytes([43, 0, 16, 1])
          bytes([60]) + bytes(10), bytes([44, 0, 1, 1, 0]), bytes([61, 0]), bytes([69]), bytes([4, 0]), bytes([3])]
 
 
+def rec_through(h):
+    """bodies of `def h` that re-enter themselves through every construct (CALL and EVAL)."""
+    call = [I('OP_CALL', h)]
+    ev = [P_(bytes([C['OP_CALL'], h])), I('OP_EVAL')]
+    out = []
+    for again in (call, ev):
+        out += [
+            [I('OP_TRUE'), ['if', again]],
+            [I('OP_TRUE'), ['ife', again, []]],
+            [I('OP_FALSE'), ['ife', [], again]],
+            [['try', again, []]],
+            [['try', [I('OP_FALSE'), I('OP_VERIFY')], again]],
+            [I('OP_TRUE'), ['loop', [I('OP_POP0')] + again + [I('OP_FALSE')]]],
+            [['try', [I('OP_TRUE'), ['if', [['try', [I('OP_FALSE'), I('OP_VERIFY')], again]]]], []]],
+        ]
+    return out
+
+
 @st.composite
 def hungry(draw, max_nest=40, depth=0):
     out = []
@@ -248,8 +266,8 @@ def hungry(draw, max_nest=40, depth=0):
             out += [P_(b'\x01\x01'), ['loop', body]]
         elif k == 'rec_call':
             h = draw(st.integers(0, 2))
-            out += [['def', h, draw(st.sampled_from([[I('OP_TRUE'), I('OP_CALL', h)], [I('OP_CALL', h)],
-                                                      [I('OP_CALL', h), I('OP_CALL', h)]]))], I('OP_CALL', h)]
+            bodies = [[I('OP_TRUE'), I('OP_CALL', h)], [I('OP_CALL', h)], [I('OP_CALL', h), I('OP_CALL', h)]] + rec_through(h)
+            out += [['def', h, draw(st.sampled_from(bodies))], I('OP_CALL', h)]
         elif k == 'rec_eval':
             out += [P_(bytes([C['OP_DUP'], C['OP_EVAL']])), I('OP_DUP'), I('OP_EVAL')]
         elif k == 'nest' and depth < 2:
@@ -351,6 +369,8 @@ def deep_script(family, depth):
     if family == 'eval':
         s = bytes([C['OP_DUP'], C['OP_EVAL']])
         return bytes([C['OP_PUSH1'], len(s)]) + s + s
+    if family == 'rec-through':
+        return R.encode(render.lower([['def', 0, rec_through(0)[depth]], I('OP_CALL', 0)]))
     raise ValueError(family)
 
 
@@ -422,6 +442,9 @@ def task_deep(ctx):
     for f in ('call', 'eval'):
         for cl in (1, 2, 128, 500, 2000):
             items.append((f, 0, (1024, 1024, cl)))
+    for vi in range(len(rec_through(0))):
+        for cl in (1, 3, 7):
+            items.append(('rec-through', vi, (1024, 1024, cl)))
     for i, (f, d, lim) in enumerate(items):
         if i % ctx.nshards != ctx.shard:
             continue
